@@ -40,12 +40,14 @@ func xGenPropWrap(prop string, kind int, tier string, seed uint64, n int, e *Emi
 			o.DirPct = 10
 		case "C05":
 			o.VarArgPct = 60
-			o.BadInputPct = 50
+			o.BadInputPct = 40
+			o.NestedVarPct = 55
+			o.OmitVarPct = 45
 			o.DirPct = 8
 			pol = xPolicy{Null: 3, Err: 1, Thunk: 2}
 		case "C13":
 			o.Mutation = true
-			o.MultiOp = false
+			o.MultiOp = r.Chance(35) // the executed mutation is then not the only (nor always the last) definition
 			pol = xPolicy{Null: 5, Err: 5, ValErr: 2, Panic: 2, Thunk: 40, Adversarial: 2}
 		case "C18":
 			pol = xPolicy{Null: 8, Err: 12, ValErr: 4, Panic: 4, Thunk: 10, Adversarial: 15, BadType: 5}
@@ -59,6 +61,9 @@ func xGenPropWrap(prop string, kind int, tier string, seed uint64, n int, e *Emi
 		opIdx := 0
 		if len(doc.Ops) > 1 {
 			opIdx = r.Intn(len(doc.Ops))
+			if prop == "C13" {
+				opIdx = 0 // operation A is the mutation under test; B (query or mutation) follows it
+			}
 			op = doc.Ops[opIdx].Name
 		} else if doc.Ops[0].Name != "" && r.Bool() {
 			op = doc.Ops[0].Name
